@@ -188,7 +188,8 @@ for alg in ("fifo", "lru", "sieve"):
         h("C05", "foyer-memory", RAW, f"shard_{alg}_{n}", f"A1+A2+A3 on a stack RawCacheShard, {n} fully symbolic operations",
           "RawCacheShard::{emplace,evict,remove,clear}, Sentry, " + alg.capitalize() + "::{push,pop,remove,clear}",
           f"capacity symbolic 0..=4; {n} operations, each a symbolic choice of emplace(key in {{16,17,32}}, weight 0..3, phantom?, low hint?) / remove(key) / clear / evict(0)",
-          quick=False, tq=900, tt=3000, unwind=6, instantiation=INST[alg].replace("RawCache", "RawCacheShard"), stubs=MEMORY_STUBS + TAKE, memsafety=True)
+          quick=(alg == "fifo" and n == 2), tq=900, tt=3000, unwind=6, instantiation=INST[alg].replace("RawCache", "RawCacheShard"), stubs=MEMORY_STUBS + TAKE,
+          exp=(n == 3))
 h("C05", "foyer-memory", RAW, "c05_a4_capacity_split", "A4 shard capacities add up and differ by at most one", "RawCache::shard_capacity_for",
   "every total: usize, shards 1..=4", quick=True, tq=300, stubs=MEMORY_STUBS)
 
@@ -223,7 +224,7 @@ def c14(name, alg, cfg, nops, quick=False, tq=600):
     h("C14", "foyer-memory", EV, name, f"{alg} victim order == documented rule (lock-step differential + final drain)",
       f"{alg}::{{new,push,pop,remove,acquire,release}} on real Arc<Record>s (intrusive lists)",
       f"3 records, weights symbolic 1..=2, hints symbolic; {nops} symbolic operations from {{push,pop,remove,acquire,release}}; {cfg}",
-      quick=quick, tq=tq, tt=3000, unwind=6, stubs=MEMORY_STUBS, memsafety=True)
+      quick=quick, tq=tq, tt=3000, unwind=6, stubs=MEMORY_STUBS, exp=name in ("c14_lru_h2_5", "c14_lru_h1_4"))
 c14("c14_fifo_3", "Fifo", "capacity 4", 3, quick=True)
 c14("c14_fifo_4", "Fifo", "capacity 4", 4)
 c14("c14_lru_h2_3", "Lru", "capacity 4, high_priority_pool_ratio 0.5 (pool weight 2)", 3, quick=True)
@@ -240,9 +241,11 @@ for nm, cfgt, nops, q in (("c14_s3fifo_g2_4", "capacity 4, small 0.25 (1), ghost
                           ("c14_s3fifo_g2_6", "capacity 4, small 0.25, ghost 0.5, threshold 1", 6, False), ("c14_s3fifo_t2_5", "capacity 4, small 0.5 (2), ghost 1.0 (4), threshold 2", 5, False)):
     h("C14", "foyer-memory", EV, nm, "S3-FIFO victim order == documented rule (lock-step differential + final drain)",
       "S3Fifo::{new,push,pop,remove,acquire}, GhostQueue::{new,push,pop} on real Arc<Record>s", f"3 records, weights symbolic 1..=2; {nops} symbolic operations; {cfgt}",
-      quick=q, tq=600, tt=3000, unwind=6, stubs=S3STUB)
+      quick=q, tq=600, tt=3000, unwind=6, stubs=S3STUB, exp=True)
+h("C14", "foyer-memory", "eviction::s3fifo::verif_kani", "c14_s3fifo_ghost_direct", "S3-FIFO ghost queue driven directly: share bound and most-recent-window membership",
+  "GhostQueue::{new,push} (+ pop / contains via the VecDeque, see stubs)", "capacity 2; three pushes with symbolic weights 1..=2", quick=True, tq=600, tt=1800, unwind=6, stubs=S3STUB, exp=True)
 h("C14", "foyer-memory", EV, "c14_s3fifo_ghost_window", "S3-FIFO ghost queue remembers at most its configured share, most recent first",
-  "S3Fifo::{push,pop}, GhostQueue::{push,pop}", "3 records with symbolic weights 1..=2 evicted through the small queue; ghost capacity 2", quick=True, tq=600, tt=1800, unwind=6, stubs=S3STUB)
+  "S3Fifo::{push,pop}, GhostQueue::{push,pop}", "3 records with symbolic weights 1..=2 evicted through the small queue; ghost capacity 2", quick=True, tq=600, tt=1800, unwind=6, stubs=S3STUB, exp=True)
 
 # =====================================================================================================================
 # C11 / C17 / C06 building blocks: in-flight table (hashbrown portable groups)
@@ -251,12 +254,12 @@ INF = "inflight::verif_kani"
 h("C11", "foyer-memory", INF, "c11_x1_close_flag_take", "X1 close-flag identity (take)", "InflightManager::{new,enqueue,take}, hashbrown::HashTable::{entry,insert,remove}",
   "one key; take by id or by key (symbolic)", quick=True, tq=900, tt=3000, unwind=10, miri=True, stubs=MEMORY_STUBS)
 h("C11", "foyer-memory", INF, "c11_x1_close_flag_fetch_or_take", "X1 close-flag identity (fetch_or_take)", "InflightManager::{new,enqueue,fetch_or_take}",
-  "one key, leader without deferred fetch", quick=False, tq=900, tt=3000, unwind=10, miri=True, stubs=MEMORY_STUBS)
+  "one key, leader without deferred fetch", quick=False, tq=900, tt=3000, unwind=10, miri=True, stubs=MEMORY_STUBS, exp=True)
 h("C17", "foyer-memory", INF, "c17_inflight_collision", "in-flight table keeps colliding keys apart", "InflightManager::{enqueue,take}",
-  "keys 16,17 with identical 64-bit hash; 3 enqueues, takes in symbolic order", quick=False, tq=900, tt=3000, unwind=10, miri=True, stubs=MEMORY_STUBS)
+  "keys 16,17 with identical 64-bit hash; 3 enqueues, takes in symbolic order", quick=False, tq=900, tt=3000, unwind=10, miri=True, stubs=MEMORY_STUBS, exp=True)
 
 h("C17", "foyer-memory", RAW, "c17_hash_table_indexer_collision", "memory index keeps colliding keys apart", "HashTableIndexer::{insert,get,remove}, hashbrown::HashTable::{entry,find}",
-  "keys 16,17 with identical 64-bit hash (order symbolic), values symbolic; insert both, overwrite one, remove one (symbolic which)", quick=True, tq=900, tt=3000, unwind=8, miri=True, stubs=MEMORY_STUBS)
+  "keys 16,17 with identical 64-bit hash (order symbolic), values symbolic; insert both, overwrite one, remove one (symbolic which)", quick=True, tq=900, tt=3000, unwind=8, miri=True, stubs=MEMORY_STUBS, exp=True)
 
 # =====================================================================================================================
 # foyer-storage
@@ -277,18 +280,19 @@ h("C01", "foyer-storage", KP, "c01_k1_keeper_collide_3", "K1 symbolic schedule, 
 BUF = "engine::block::buffer::verif_kani"
 SPL = "Splitter::{split,split_blob,split_block,seal_blob}, BlobIndex::{write,seal,reset,is_full,capacity}, BufferEntryInfo::aligned, IoSlice::slice, BlobIndexReader::read, BlobEntryIndex::{read,write,aligned}"
 HEAD = ["Checksummer::checksum64 -> loop-free fold of the length and the first 32 checksummed bytes (layout harnesses; integrity is decided elsewhere)"]
-for nm, n, blk, c, q in (("c07_w1_b4_n1_c0", 1, 4, 0, True), ("c07_w1_b4_n1_c1", 1, 4, 1, True), ("c07_w1_b4_n2_c0", 2, 4, 0, False), ("c07_w1_b4_n2_c1", 2, 4, 1, False),
-                          ("c07_w1_b4_n3_c0", 3, 4, 0, False), ("c07_w1_b4_n3_c2", 3, 4, 2, False), ("c07_w1_b256_n1_c169", 1, 256, 169, True),
-                          ("c07_w1_b256_n2_c168", 2, 256, 168, False), ("c07_w1_b256_n2_c169", 2, 256, 169, False), ("c07_w1_b256_n3_c167", 3, 256, 167, False),
-                          ("c07_w1_b256_n3_c168", 3, 256, 168, False), ("c07_w1_b256_n2_c0", 2, 256, 0, False)):
-    h("C07", "foyer-storage", BUF, nm, "W1 splitter step from an arbitrary valid SplitCtx + W2 index page / reader / scanner agreement", SPL,
-      f"block {blk} pages, index page 4 KiB; pre-state: open blob with {c} entries (concrete), blob offset and part offset symbolic under the invariant; one batch of {n} "
-      f"entr{'y' if n == 1 else 'ies'} with symbolic length(s) 1..=12 KiB", quick=q, tq=600, tt=3000, stubs=STORAGE_STUBS[:5] + HEAD + [STORAGE_STUBS[-1]])
-h("C07", "foyer-storage", BUF, "c07_w1_inv_init", "W1 base case: SplitCtx::new satisfies the invariant", "SplitCtx::new", "block 16 KiB, index 4 KiB", quick=True, tq=300)
+W1_NAMES = ["c07_w1_b4_b0_n1p1", "c07_w1_b4_b0_n1p3", "c07_w1_b4_b1_n1p3", "c07_w1_b4_b2_n1p2", "c07_w1_b4_b3_n1p1", "c07_w1_b4_b4_n1p1", "c07_w1_b4_b0_n2p12", "c07_w1_b4_b0_n2p22",
+            "c07_w1_b4_b2_n2p11", "c07_w1_b4_b0_n3p111", "c07_w1_b4_b0_n3p312", "c07_w1_b4_b0p2c1_n1p1", "c07_w1_b4_b0p2c1_n1p3", "c07_w1_b4_b0p3c2_n1p1", "c07_w1_b4_b0p4c3_n1p1",
+            "c07_w1_b4_b1p2c1_n2p11", "c07_w1_b4_b1p3c2_n2p12", "c07_w1_b4_b2p2c1_n1p2", "c07_w1_b256_c169_n1", "c07_w1_b256_c169_n1_b3", "c07_w1_b256_c168_n2", "c07_w1_b256_c169_n2",
+            "c07_w1_b256_c168_n3", "c07_w1_b256_c100_near_end", "c07_w1_b256_fresh_n2"]
+for nm in W1_NAMES:
+    h("C07", "foyer-storage", BUF, nm, "W1 splitter step from a literal pre-state structure + W2 index page / reader / scanner agreement (DOES NOT DISCHARGE: 17-41 GB)", SPL,
+      "structure encoded in the name: block pages, blob page, part page, index count, pages per entry; entry lengths symbolic within their last page",
+      quick=False, tq=900, tt=3000, stubs=STORAGE_STUBS[:5] + HEAD + [STORAGE_STUBS[-1]], exp=True)
+h("C07", "foyer-storage", BUF, "c07_w1_inv_init", "W1 base case: SplitCtx::new satisfies the invariant", "SplitCtx::new", "block 16 KiB, index 4 KiB", quick=True, tq=300, exp=True)
 h("C07", "foyer-storage", BUF, "c07_w4_index_slots", "W4 index slot addressing at the boundary counts", "BlobIndex::{write,is_full,capacity}, BlobEntryIndex::{write,read}",
-  "count in {0,1,168,169,170}; slot contents symbolic", quick=True, tq=300)
-h("C07", "foyer-storage", BUF, "c07_w3_push_slice", "W3 Buffer::push_slice bookkeeping / whole-entry rejection", "Buffer::push_slice, bits::align_up",
-  "4-page buffer, 3 pushes with symbolic lengths 1..=12 KiB, max_entry_size symbolic 1..4 pages", quick=True, tq=300, extra_props=["C08"])
+  "count in {0,1,168,169,170}; slot contents symbolic", quick=True, tq=300, exp=True)
+h("C08", "foyer-storage", BUF, "c07_w3_push_slice", "R3b Buffer::push_slice bookkeeping: an entry that does not fit is rejected as a whole", "Buffer::push_slice, bits::align_up",
+  "4-page buffer, 3 pushes with symbolic lengths 1..=12 KiB, max_entry_size symbolic 1..4 pages", quick=True, tq=600)
 for n in (0, 2):
     h("C03", "foyer-storage", BUF, f"c03_d3a_index_flip_{n}", "D3a sealed blob index page with one damaged byte", "BlobIndex::{write,seal}, BlobIndexReader::read",
       f"{n} entries (symbolic), one symbolic byte among the stored checksum / count / first slot replaced by a symbolic different value", quick=(n == 0), tq=600, exp=(n == 2),
@@ -319,10 +323,10 @@ for nm, what, q in (("c01_store_load_queue_first_same", "queued 16, lookup 16", 
     h("C01", "foyer-storage", ST, nm, "L2 write queue consulted first; colliding twin not aliased", STF, what + "; queued value symbolic", quick=q, tq=600, tt=1800, unwind=6, miri=True, extra_props=["C17"], exp=True)
 for nm, what, q in (("c12_store_enqueue_admit", "filter admits", True), ("c12_store_enqueue_reject", "filter rejects", True), ("c12_store_enqueue_throttled", "filter throttles", False),
                     ("c12_store_enqueue_forced_reject", "forced although the filter rejects", True)):
-    h("C12", "foyer-storage", ST, nm, "E1 admission decision of Store::enqueue", STF, what + "; key and value symbolic", quick=q, tq=600, tt=1800, unwind=6, miri=True, exp=False)
+    h("C12", "foyer-storage", ST, nm, "E1 admission decision of Store::enqueue", STF, what + "; key and value symbolic", quick=q, tq=600, tt=1800, unwind=6, miri=True, exp=(nm in ("c12_store_enqueue_admit", "c12_store_enqueue_forced_reject")))
 TB = "engine::block::tombstone::verif_kani"
 TF = "TombstoneLog::{open,append,calculate_slot_addr,slot_addr}, Tombstone::{read,write}, PageBuffer::{open,update,load,flush,locate} on a harness IoEngine/Partition over a byte array"
-h("C10", "foyer-storage", TB, "c10_t4_slot_addr", "T4 slot arithmetic", "TombstoneLog::calculate_slot_addr", "pages 1..=2^20, slot < 2^40 (symbolic)", quick=True, tq=300)
+h("C10", "foyer-storage", TB, "c10_t4_slot_addr", "T4 slot arithmetic", "TombstoneLog::calculate_slot_addr", "pages 1..=2^20, slot < 2^40 (symbolic)", quick=True, tq=300, exp=True)
 for nm, pp, newest, q in (("c10_t1_open_p0_s5", "2 pages, 1 partition", 5, False), ("c10_t1_open_p0_s255", "2 pages, 1 partition", 255, False),
                           ("c10_t1_open_p1_s256", "2 pages, 1 partition", 256, True), ("c10_t1_open_p1_s300", "2 pages, 1 partition", 300, False),
                           ("c10_t1_open_p2_s600", "3 pages, 1 partition", 600, False), ("c10_t1_open_2parts_s300", "2 partitions of 1 page", 300, True)):
